@@ -150,7 +150,9 @@ impl super::EncodeSize for ConnectionCloseFrame {
                     + frame.reason.len()
             }
             ConnectionCloseFrame::Quic(frame) => {
-                1 + VarInt::from(frame.error_kind).encoding_size() + 1
+                1 + VarInt::from(frame.error_kind).encoding_size()
+                    // the frame type is a varint: extension frame types take more than 1 byte
+                    + VarInt::from(frame.frame_type).encoding_size()
                     // reason's length could not exceed 16KB.
                     + VarInt::try_from(frame.reason.len()).unwrap().encoding_size()
                     + frame.reason.len()
